@@ -12,9 +12,9 @@ BASE_STRUCT = ("struct", "B0", (("b", 0, U(8), None, None),))
 BASE_ENUM = ("enum", "E0", (("e0", 0), ("e1", 1)))
 
 IDENTS = ("u8x", "i2c_msg", "f32x", "strx", "Optionalx", "structure", "mod_", "A", "a_b1", "implx", "enum_", "u", "i", "f", "_x", "as_", "version1", "signalx", "methodx", "returnsx", "u123", "f321")
-VALUE_FORMS = (0, 7, -3, 18446744073709551615, 9007199254740993, -9223372036854775807, 2.0, 1.5, -2.5e-3, 1e10, "", "txt", "a b", "x//y", "p/*q*/r", ("id", "ident1"), ("id", "u8"), [1], [1, 2], [("id", "a"), "s", -1.5], [[1, 2], [3]], [[1], [2, [3]]])
-RANGE_FORMS = ((-1.5, 2000.0), (0.0, 1.0), (1e-3, 1e5), (-1e-7, -0.0), (0, 10), (-5, 5.5))
-UNITS = ("m/s", "", "deg C", "%", "a,b")
+VALUE_FORMS = (0, 7, -3, 18446744073709551615, 9007199254740993, -9223372036854775807, 2.0, 1e+16, 1.5, -2.5e-3, 1e10, "", "txt", "a b", "\u00b5s \u03a9", "x//y", "p/*q*/r", ("id", "ident1"), ("id", "u8"), [1], [1, 2], [("id", "a"), "s", -1.5], [[1, 2], [3]], [[1], [2, [3]]])
+RANGE_FORMS = ((-1.5, 2000.0), (0.0, 1.0), (1e-3, 1e5), (-1e-7, -0.0), (0, 10), (-5, 5.5), (1e-05, 1e16))
+UNITS = ("m/s", "", "\u00b0C", "deg C", "%", "a,b", "\u03a9\u00b7m \u20ac")
 
 
 def _wrappers(t):
@@ -38,9 +38,9 @@ def descriptions(tier):
     for i, t in enumerate(types):
         out.append(("type", [BASE_STRUCT, BASE_ENUM, ("struct", "S", (("x", 0, t, None, None), ("y", 1, U(3), None, None)))]))
     # 2. params: unit / range in both orders, ids in and out of order
-    idsets = ((0, 1), (1, 0), (7, 255), (255, 0)) if tier != "quick" else ((0, 1), (255, 7))
-    ranges = RANGE_FORMS if tier != "quick" else RANGE_FORMS[:1] + RANGE_FORMS[3:5]
-    units = UNITS if tier != "quick" else UNITS[:3]
+    idsets = ((0, 1), (1, 0), (7, 255), (255, 0), (1, 256), (65536, 3), (4294967295, 2)) if tier != "quick" else ((0, 1), (255, 7), (257, 1), (4294967295, 65536))
+    ranges = RANGE_FORMS if tier != "quick" else RANGE_FORMS[:1] + RANGE_FORMS[3:5] + RANGE_FORMS[6:]
+    units = UNITS if tier != "quick" else UNITS[:3] + UNITS[6:]
     for ids in idsets:
         for unit in (None,) + units:
             for rng in (None,) + ranges:
@@ -56,7 +56,7 @@ def descriptions(tier):
     # enumerator values beyond the i32 the reflection schema reserves for them: parse tree only (C07), not C12
     out.append(("enum-beyond-i32", [("enum", "E", (("v0", 9007199254740993), ("v1", 18446744073709551615)))]))
     # 4. bindings: rename x extension fields (every value form) x signal blocks
-    forms = VALUE_FORMS if tier != "quick" else VALUE_FORMS[:8] + VALUE_FORMS[10:14] + VALUE_FORMS[15:18] + VALUE_FORMS[19:20]
+    forms = VALUE_FORMS if tier != "quick" else VALUE_FORMS[:9] + VALUE_FORMS[11:15] + VALUE_FORMS[16:19] + VALUE_FORMS[20:21]
     for rename in (None, "Ren"):
         for nsig in (0, 1, 2):
             sigs = tuple(("b" if j == 0 else "c", (("endianess", "big"), ("k%d" % j, j))) for j in range(nsig))
@@ -65,6 +65,10 @@ def descriptions(tier):
             # zero extension fields (only legal when a signal block is present)
             if nsig:
                 out.append(("impl", [("struct", "B0", (("b", 0, U(8), None, None), ("c", 1, U(8), None, None))), ("impl", "can", "B0", rename, (), sigs)]))
+    # extension fields written after / between the signal blocks
+    for layout in ("signals-first", "interleaved"):
+        for rename in (None, "Ren"):
+            out.append(("impl-layout", [("struct", "B0", (("b", 0, U(8), None, None), ("c", 1, U(8), None, None))), ("impl", "can", "B0", rename, (("id", 10), ("device", "ecu"), ("bus", "b1")), (("b", (("endianess", "big"),)), ("c", (("mux_count", 2),))), layout)]))
     # signal blocks with every value form
     for v in forms:
         out.append(("signal", [BASE_STRUCT, ("impl", "p1", "B0", None, (), (("b", (("key", v),)),))]))
